@@ -213,7 +213,8 @@ pub fn profile(prop: Prop, thorough: bool) -> Profile {
         C07 => {
             p.max_ops = if thorough { 40 } else { 28 };
             p.many_max = 120;
-            p.family = 1;
+            // both families: element types without drop glue take different paths in places
+            p.family = 2;
             p.w.par = 0;
         }
         C08 => {
